@@ -80,6 +80,8 @@ def elements(level=1):
         lambda: Element(default=0), lambda: String(default="a"), lambda: Integer(default="bad"),
         lambda: Element(format="uuid"), lambda: String(format="date-time"), lambda: Element(format="unregistered-x"),
         lambda: Integer(minimum=0, maximum=2), lambda: Number(exclusiveMinimum=0), lambda: String(minLength=1, maxLength=2),
+        lambda: Element(default=[1, 2]), lambda: Element(default={"a": 1}), lambda: Array(Integer(), default=[1, 2]),
+        lambda: Array(Number(), default=[1]), lambda: Element(default={"a": [1]}, properties={"a": Property(Array(Number()))}),
     ]
     out = list(leaves)
     if level >= 1:
